@@ -74,9 +74,31 @@ pub fn decode_int(ty: u8, mode: Mode, c: &[u8]) -> Option<Option<String>> {
     })
 }
 
+macro_rules! dec_lazy {
+    ($d:expr, $m:expr, $f:ident) => {{
+        let mut src = crate::sources::FlexSource::new($d, crate::sources::Policy::Exact, None);
+        bcder::decode::Constructed::decode(&mut src, $m, |cons| cons.take_primitive_if(bcder::Tag::INTEGER, |p| p.$f())).map(|v| v.to_string()).ok()
+    }};
+}
+/// the same accessor on the same content, delivered by a source that shows exactly what was requested
+pub fn decode_int_lazy(ty: u8, mode: Mode, c: &[u8]) -> Option<Option<String>> {
+    let mut d = vec![0x02u8]; d.extend(crate::gen::ref_len_octets(c.len())); d.extend_from_slice(c);
+    catch(|| match ty {
+        0 => dec_lazy!(&d, mode, to_i8), 1 => dec_lazy!(&d, mode, to_i16), 2 => dec_lazy!(&d, mode, to_i32),
+        3 => dec_lazy!(&d, mode, to_i64), 4 => dec_lazy!(&d, mode, to_i128), 5 => dec_lazy!(&d, mode, to_u8),
+        6 => dec_lazy!(&d, mode, to_u16), 7 => dec_lazy!(&d, mode, to_u32), 8 => dec_lazy!(&d, mode, to_u64),
+        _ => dec_lazy!(&d, mode, to_u128),
+    })
+}
+
 fn dec_case(em: &mut Emitter, ty: u8, mode: u8, c: &[u8]) {
     em.case(1401, &[num_arg(ty), num_arg(mode), bytes_arg(c)], || {
         let r = decode_int(ty, mode_of(mode), c);
+        // boundary contents also through an incremental source: the codec must not depend on delivery
+        if c.len() >= 2 && c.len() < 120 && (c[0] == 0 || c[0] == 0xff || c[1] & 0x7f == 0) {
+            let rl = decode_int_lazy(ty, mode_of(mode), c);
+            if rl != r { return (Ints::new().n(match &r { Some(Some(_)) => R_OK, Some(None) => R_CERR, None => R_PANIC }), Oracle::Fail("integer-codec-depends-on-how-the-source-delivers".into()), true) }
+        }
         let exp = if ref_minimal(c) {
             match ref_value(c) { Some((n, m)) if ref_in_range(ty, n, m) => Some(val_string(n, m)), _ => None }
         } else { None };
